@@ -97,7 +97,8 @@ def main():
 
         print("Saving in ", foldername)
 
-    ti = int(t//constants.dt)
+    # t is 0 or the time of a checkpoint : the nearest step, t//dt can be one short for a float dt
+    ti = int(t/constants.dt + 0.5)
     tN = int(tEnd//constants.dt)
 
     # --------------------------
